@@ -416,6 +416,20 @@ def family_programs(rnd, n):
                "fn r(n, k) { if n == 0 { return f(k); } return r(n - 1, k); }\n"
                f"let d = 0;\nwhile d < 120 {{ r(d, {k}); d = d + 1; }}\nprint(\"after\");")
         out.append((f"errfill:{k}", src, {"stdout": ["true"] * 120 + ["after"], "status": "ok"}))
+    # ---- errors and exits on fibers other than the main one
+    FIBERR = [('fn w() { raise Error("in fiber"); }\nlaunch w();\nlet ch = chan();\nprint(<- ch);', {"status_in": ["runtime_error"], "stderr_has": "Error: in fiber"}),
+              ('fn w(ch) { nil.x; ch <- 1; }\nlet ch = chan(1);\nlaunch w(ch);\nprint(<- ch);', {"status_in": ["runtime_error"], "stderr_has": "in w()"}),
+              ('fn w(ch) { try { nil.x; } catch e { ch <- "c"; } }\nlet ch = chan(1);\nlaunch w(ch);\nprint(<- ch);\nprint("after");', {"stdout": ["c", "after"], "status": "ok"}),
+              ('fn w() { exit(5); }\nlaunch w();\nlet ch = chan();\nprint(<- ch);', {"code": 5}),
+              ('fn g() { [1][7]; }\nfn w() { launch g(); let c = chan(); <- c; }\nlaunch w();\nlet ch = chan();\n<- ch;', {"status_in": ["runtime_error"], "stderr_has": "in g()"}),
+              ('fn w() { print("w"); }\nlaunch w();\nlaunch w();\nraise Error("main");', {"status_in": ["runtime_error"], "stderr_has": "Error: main"}),
+              ('fn w(ch) { [1].iter().each(|x| x.zz); ch <- 1; }\nlet ch = chan(1);\nlaunch w(ch);\nprint(<- ch);', {"status_in": ["runtime_error"], "stderr_has": "each()"}),
+              ('fn w(ch) { nil.x; }\nlet ch = chan();\nlaunch w(ch);\ntry { print(<- ch); } catch e { print("caught in main"); }\nprint("after");', {"status_in": ["runtime_error", "ok"]}),
+              ('fn w(ch, i) { ch <- i; }\nlet ch = chan(300);\nfor i in 300.times() { launch w(ch, i); }\nlet s = 0;\nfor i in 300.times() { s = s + <- ch; }\nprint(s);', {"stdout": ["44850"], "status": "ok"}),
+              ('fn r(n) { return r(n + 1); }\nfn w(ch) { try { r(0); } catch e { ch <- "overflow"; } }\nlet ch = chan(1);\nlaunch w(ch);\nprint(<- ch);', {"stdout": ["overflow"], "status": "ok"}),
+              ('fn w(ch) { ch <- [1, [2]]; }\nlet ch = chan();\nlaunch w(ch);\nlet v = <- ch;\nprint(v[1][0]);', {"stdout": ["2"], "status": "ok"})]
+    for i, (src, exp) in enumerate(FIBERR):
+        out.append((f"fibererr:{i}", src, dict({"contract": True}, **exp)))
     # ---- the operations that are syntax, not natives of the table, over every kind (pair) of operand
     kinds = sorted(POOL)
     val = lambda k, j=0: POOL[k][j % len(POOL[k])]
